@@ -63,9 +63,12 @@ fn any_seed_i<H: HashChain>() -> (SeedAndLmsTreeIdentifier<H>, [u8; 32], [u8; 16
     let i: [u8; 16] = kani::any();
     (SeedAndLmsTreeIdentifier::new(&Seed::<H>::from(raw), &i), raw, i)
 }
-fn prng_block(x: &RecQuery, i: &[u8; 16], qq: u32, j: u16, seed: &[u8], n: usize) -> bool {
-    x.kind == 0 && x.len == 23 + n && eq(&x.head[..16], i) && eq(&x.head[16..20], &qq.to_be_bytes())
+/// `len` = 55 for SeedDerive (hash-sigs hashes its fixed PRNG_LEN buffer; shorter seeds leave a zero
+/// tail) and 23 + n for the LM-OTS chain start values (hashed piecewise, no padding)
+fn prng_block(x: &RecQuery, i: &[u8; 16], qq: u32, j: u16, seed: &[u8], n: usize, len: usize) -> bool {
+    x.kind == 0 && x.len == len && eq(&x.head[..16], i) && eq(&x.head[16..20], &qq.to_be_bytes())
         && eq(&x.head[20..22], &j.to_be_bytes()) && x.head[22] == 0xff && eq(&x.head[23..23 + n], &seed[..n])
+        && zero(&x.head[23 + n..len])
 }
 
 // ---- child seed / identifier and per-leaf randomizer ---------------------------------------------
@@ -76,13 +79,13 @@ fn child_seed<H: HashChain>() {
     let leaf: u32 = kani::any();
     let r = generate_child_seed_and_lms_tree_identifier::<H>(&parent, &leaf);
     assert!(ok() && nq() == 2, "two digests");
-    assert!(prng_block(&q(0), &i, leaf, 0xfffe, &raw, n), "child seed pre-image: parent I | parent leaf | 0xfffe | 0xff | parent seed");
-    assert!(prng_block(&q(1), &i, leaf, 0xffff, &raw, n), "child identifier pre-image: parent I | parent leaf | 0xffff | 0xff | parent seed");
+    assert!(prng_block(&q(0), &i, leaf, 0xfffe, &raw, n, 55), "child seed pre-image: parent I | parent leaf | 0xfffe | 0xff | parent seed, zero padded to 55 bytes");
+    assert!(prng_block(&q(1), &i, leaf, 0xffff, &raw, n, 55), "child identifier pre-image: parent I | parent leaf | 0xffff | 0xff | parent seed");
     assert!(eq(r.seed.as_slice(), &tape(0)[..n]) && eq(&r.lms_tree_identifier, &tape(1)[..16]), "child seed / identifier are those digests");
     // randomizer
     rec_reset_symbolic();
     let c = generate_signature_randomizer::<H>(&parent, &leaf);
-    assert!(ok() && nq() == 1 && prng_block(&q(0), &i, leaf, 0xfffd, &raw, n), "randomizer pre-image: I | leaf | 0xfffd | 0xff | seed");
+    assert!(ok() && nq() == 1 && prng_block(&q(0), &i, leaf, 0xfffd, &raw, n, 55), "randomizer pre-image: I | leaf | 0xfffd | 0xff | seed");
     assert!(eq(c.as_slice(), &tape(0)[..n]), "randomizer C is that digest");
     kani::cover!(true, "reached");
 }
@@ -103,7 +106,7 @@ fn ots_private<H: HashChain>(w: LmotsAlgorithm, p: usize) {
     assert!(sk.key.as_slice().len() == p, "p chain start values");
     let mut k = 0;
     while k < p {
-        assert!(prng_block(&q(k), &i, leaf, k as u16, &raw, n), "x_q[i] pre-image: I | q | u16(i) | 0xff | seed");
+        assert!(prng_block(&q(k), &i, leaf, k as u16, &raw, n, 23 + n), "x_q[i] pre-image: I | q | u16(i) | 0xff | seed");
         assert!(eq(sk.key.as_slice()[k].as_slice(), &tape(k)[..n]), "x_q[i] is the i-th digest");
         k += 1;
     }
@@ -153,8 +156,21 @@ harness! { fn c08_ots_public_key_n32_w8() unwind 70 { ots_public::<RecSum32, { 3
 harness! { fn c08_ots_public_key_n16_w4() unwind 70 { ots_public::<RecSum16, { 16 * 35 }>(LmotsAlgorithm::LmotsW4, 4, 35) }}
 
 // ---- LM-OTS signing (RFC 8554 Alg. 3) and the verifier's candidate (Alg. 4b) ----------------------
-fn ots_sign_and_candidate<H: HashChain, const YLEN: usize>(w: LmotsAlgorithm, wbits: usize, p: usize) {
-    salt_symbolic();
+/// reference Q || Cksm(Q) with the Appendix-B shift
+fn ref_q_cksm(t0: &[u8; 32], n: usize, wbits: usize, ls: usize) -> [u8; 34] {
+    let mut qc = [0u8; 34];
+    qc[..n].copy_from_slice(&t0[..n]);
+    let mut sum: u32 = 0;
+    let mut d = 0;
+    while d < 8 * n / wbits { sum += ((1u32 << wbits) - 1) - rfc_coef(&qc, d, wbits); d += 1; }
+    let ck = (sum << ls) as u16;
+    qc[n] = (ck >> 8) as u8;
+    qc[n + 1] = ck as u8;
+    qc
+}
+
+/// signer side (RFC 8554 Algorithm 3)
+fn ots_sign_transcript<H: HashChain>(w: LmotsAlgorithm, wbits: usize, p: usize) {
     let n = H::OUTPUT_SIZE as usize;
     let (_u, _v, ls, p_rfc) = appendix_b(n, wbits);
     assert!(p == p_rfc, "instance uses the Appendix-B chain count");
@@ -177,96 +193,97 @@ fn ots_sign_and_candidate<H: HashChain, const YLEN: usize>(w: LmotsAlgorithm, wb
     assert!(m.kind == 0 && m.len == 22 + n + mlen, "Q pre-image length");
     assert!(eq(&m.head[..16], &i) && eq(&m.head[16..20], &leaf.to_be_bytes()) && m.head[20] == 0x81 && m.head[21] == 0x81, "I | q | D_MESG");
     assert!(eq(&m.head[22..22 + n], &cb[..n]) && eq(&m.head[22 + n..22 + n + mlen], &msg[..mlen]), "then C, then the message");
-    // Q || Cksm(Q) with the Appendix-B shift (reference computation)
-    let t0 = tape(0);
-    let mut qc = [0u8; 34];
-    qc[..n].copy_from_slice(&t0[..n]);
-    let mut sum: u32 = 0;
-    let mut d = 0;
-    while d < 8 * n / wbits { sum += ((1u32 << wbits) - 1) - rfc_coef(&qc, d, wbits); d += 1; }
-    let ck = (sum << ls) as u16;
-    qc[n] = (ck >> 8) as u8;
-    qc[n + 1] = ck as u8;
+    let qc = ref_q_cksm(&tape(0), n, wbits, ls);
     assert!(eq(sig.signature_randomizer.as_slice(), &cb[..n]), "signature carries C");
     assert!(sig.signature_data.len() == p, "p chain values");
-    let mut flat = [0u8; YLEN];
     let mut k = 0;
     while k < p {
         let a = rfc_coef(&qc, k, wbits) as usize;
         assert!(chain_rec(&q(1 + k), &i, leaf, k as u16, sk.key.as_slice()[k].as_slice(), 0, a, n), "chain i iterated a_i = coef(Q || Cksm(Q), i, w) times from x_i");
-        let want: &[u8] = if a == 0 { sk.key.as_slice()[k].as_slice() } else { &tape(1 + k)[..n] };
+        let t = tape(1 + k);
+        let want: &[u8] = if a == 0 { sk.key.as_slice()[k].as_slice() } else { &t[..n] };
         assert!(eq(sig.signature_data[k].as_slice(), want), "y_i is the end of chain i");
-        flat[k * n..(k + 1) * n].copy_from_slice(sig.signature_data[k].as_slice());
         k += 1;
     }
-    // verifier side on the same signature
-    let parsed = InMemoryLmotsSignature::<H> { signature_randomizer: c.as_slice(), signature_data: &flat[..n * p], lmots_parameter: par };
+    kani::cover!(mlen == 5, "longest message");
+}
+harness! { fn c07_ots_sign_transcript_n16_w8() unwind 70 { ots_sign_transcript::<RecSum16>(LmotsAlgorithm::LmotsW8, 8, 18) }}
+harness! { fn c07_ots_sign_transcript_n16_w4() unwind 70 { ots_sign_transcript::<RecSum16>(LmotsAlgorithm::LmotsW4, 4, 35) }}
+harness! { fn c07_ots_sign_transcript_n32_w8() unwind 70 { ots_sign_transcript::<RecSum32>(LmotsAlgorithm::LmotsW8, 8, 34) }}
+
+/// verifier side (RFC 8554 Algorithm 4b) on an arbitrary parsed LM-OTS signature
+fn ots_candidate_transcript<H: HashChain, const YLEN: usize>(w: LmotsAlgorithm, wbits: usize, p: usize) {
+    salt_symbolic();
+    let n = H::OUTPUT_SIZE as usize;
+    let (_u, _v, ls, _p) = appendix_b(n, wbits);
+    let i: [u8; 16] = kani::any();
+    let leaf: u32 = kani::any();
+    let par = w.construct_parameter::<H>().unwrap();
+    let cb: [u8; 32] = kani::any();
+    let flat: [u8; YLEN] = kani::any();
+    let msg: [u8; 5] = kani::any();
+    let mlen: usize = kani::any();
+    kani::assume(mlen <= 5);
+    let parsed = InMemoryLmotsSignature::<H> { signature_randomizer: &cb[..n], signature_data: &flat[..n * p], lmots_parameter: par };
     rec_reset_symbolic();
     let cand = generate_public_key_candidate(&parsed, &i, leaf, &msg[..mlen]);
     assert!(ok() && nq() == p + 2, "message digest, p chains, final digest");
-    let m2 = q(0);
-    assert!(m2.kind == 0 && m2.len == 22 + n + mlen && eq(&m2.head[..22 + n + mlen], &m.head[..22 + n + mlen]), "verifier hashes the same Q pre-image");
-    let t0 = tape(0);
-    let mut qc = [0u8; 34];
-    qc[..n].copy_from_slice(&t0[..n]);
-    let mut sum: u32 = 0;
-    let mut d = 0;
-    while d < 8 * n / wbits { sum += ((1u32 << wbits) - 1) - rfc_coef(&qc, d, wbits); d += 1; }
-    let ck = (sum << ls) as u16;
-    qc[n] = (ck >> 8) as u8;
-    qc[n + 1] = ck as u8;
+    let m = q(0);
+    assert!(m.kind == 0 && m.len == 22 + n + mlen, "Q pre-image length");
+    assert!(eq(&m.head[..16], &i) && eq(&m.head[16..20], &leaf.to_be_bytes()) && m.head[20] == 0x81 && m.head[21] == 0x81, "I | q | D_MESG");
+    assert!(eq(&m.head[22..22 + n], &cb[..n]) && eq(&m.head[22 + n..22 + n + mlen], &msg[..mlen]), "then C, then the message");
+    let qc = ref_q_cksm(&tape(0), n, wbits, ls);
     let mut zs = [0u8; YLEN];
     let mut k = 0;
     while k < p {
         let a = rfc_coef(&qc, k, wbits) as usize;
         assert!(chain_rec(&q(1 + k), &i, leaf, k as u16, &flat[k * n..(k + 1) * n], a, (1 << wbits) - 1, n), "verifier continues chain i from a_i to 2^w - 1 starting at y_i");
-        let z: &[u8] = if a == (1 << wbits) - 1 { &flat[k * n..(k + 1) * n] } else { &tape(1 + k)[..n] };
+        let t = tape(1 + k);
+        let z: &[u8] = if a == (1 << wbits) - 1 { &flat[k * n..(k + 1) * n] } else { &t[..n] };
         zs[k * n..(k + 1) * n].copy_from_slice(z);
         k += 1;
     }
     let f = q(p + 1);
     assert!(f.kind == 0 && f.len == 22 + p * n && eq(&f.head[..16], &i) && eq(&f.head[16..20], &leaf.to_be_bytes()) && f.head[20] == 0x80 && f.head[21] == 0x80, "Kc pre-image: I | q | D_PBLC | z");
     assert!(eq(&f.fp, &rec_fp(&[&i, &leaf.to_be_bytes(), &[0x80, 0x80], &zs[..p * n]])), "z_0 .. z_(p-1) in order");
-    assert!(eq(cand.as_slice(), &tape(p + 1)[..n]), "candidate is that digest");
+    let tf = tape(p + 1);
+    assert!(eq(cand.as_slice(), &tf[..n]), "candidate is that digest");
     kani::cover!(mlen == 5, "longest message");
 }
-harness! { fn c07_ots_sign_and_candidate_n16_w8() unwind 70 { ots_sign_and_candidate::<RecSum16, { 16 * 18 }>(LmotsAlgorithm::LmotsW8, 8, 18) }}
-harness! { fn c07_ots_sign_and_candidate_n16_w4() unwind 70 { ots_sign_and_candidate::<RecSum16, { 16 * 35 }>(LmotsAlgorithm::LmotsW4, 4, 35) }}
-harness! { fn c07_ots_sign_and_candidate_n32_w8() unwind 70 { ots_sign_and_candidate::<RecSum32, { 32 * 34 }>(LmotsAlgorithm::LmotsW8, 8, 34) }}
+harness! { fn c07_ots_candidate_transcript_n16_w8() unwind 70 { ots_candidate_transcript::<RecSum16, { 16 * 18 }>(LmotsAlgorithm::LmotsW8, 8, 18) }}
+harness! { fn c07_ots_candidate_transcript_n16_w4() unwind 70 { ots_candidate_transcript::<RecSum16, { 16 * 35 }>(LmotsAlgorithm::LmotsW4, 4, 35) }}
+harness! { fn c07_ots_candidate_transcript_n32_w8() unwind 70 { ots_candidate_transcript::<RecSum32, { 32 * 34 }>(LmotsAlgorithm::LmotsW8, 8, 34) }}
 
 // ---- the trait's default chain loop: x_{j+1} = H(I | q | u16(i) | u8(j) | x_j) ---------------------
-fn chain_default_loop<H: HashChain>() {
+fn chain_default_loop<H: HashChain>(from: usize, steps: usize) {
     rec_reset_symbolic();
     let n = H::OUTPUT_SIZE as usize;
     let i: [u8; 16] = kani::any();
     let leaf: [u8; 4] = kani::any();
     let id: u16 = kani::any();
     let startb: [u8; 32] = kani::any();
-    let from: usize = kani::any();
-    let steps: usize = kani::any();
-    kani::assume(from <= 255 && steps <= 3 && from + steps <= 255);
     let mut data = H::prepare_hash_chain_data(&i, &leaf);
     let mut h = H::default();
     let r = h.do_hash_chain(&mut data, id, &startb[..n], from, from + steps);
     assert!(ok() && nq() == steps, "one digest per chain step");
     let mut k = 0;
-    while k < 3 {
-        if k < steps {
-            let x = q(k);
-            assert!(x.kind == 0 && x.len == 23 + n, "chain step pre-image length 23 + n");
-            assert!(eq(&x.head[..16], &i) && eq(&x.head[16..20], &leaf), "I | q");
-            assert!(eq(&x.head[20..22], &id.to_be_bytes()), "u16 chain index");
-            assert!(x.head[22] == (from + k) as u8, "u8 step counter j");
-            let tp = if k == 0 { [0u8; 32] } else { tape(k - 1) };
-            let prev: &[u8] = if k == 0 { &startb[..n] } else { &tp[..n] };
-            assert!(eq(&x.head[23..23 + n], prev), "previous chain value");
-        }
+    while k < steps {
+        let x = q(k);
+        assert!(x.kind == 0 && x.len == 23 + n, "chain step pre-image length 23 + n");
+        assert!(eq(&x.head[..16], &i) && eq(&x.head[16..20], &leaf), "I | q");
+        assert!(eq(&x.head[20..22], &id.to_be_bytes()), "u16 chain index");
+        assert!(x.head[22] == (from + k) as u8, "u8 step counter j");
+        let tp = if k == 0 { [0u8; 32] } else { tape(k - 1) };
+        let prev: &[u8] = if k == 0 { &startb[..n] } else { &tp[..n] };
+        assert!(eq(&x.head[23..23 + n], prev), "previous chain value");
         k += 1;
     }
     let tl = if steps == 0 { [0u8; 32] } else { tape(steps - 1) };
     let want: &[u8] = if steps == 0 { &startb[..n] } else { &tl[..n] };
     assert!(eq(r.as_slice(), want), "result is the last digest (or the start value for an empty chain)");
-    kani::cover!(steps == 3 && id > 255, "three steps on a chain index above 255");
+    kani::cover!(id > 255, "chain index above 255");
 }
-harness! { fn c07_chain_default_loop_n16() unwind 70 { chain_default_loop::<Rec16>() }}
-harness! { fn c07_chain_default_loop_n32() unwind 70 { chain_default_loop::<Rec32>() }}
+harness! { fn c07_chain_default_loop_n16() unwind 70 { chain_default_loop::<Rec16>(0, 3) }}
+harness! { fn c07_chain_default_loop_n16_tail() unwind 70 { chain_default_loop::<Rec16>(253, 2) }}
+harness! { fn c07_chain_default_loop_n16_empty() unwind 70 { chain_default_loop::<Rec16>(7, 0) }}
+harness! { fn c07_chain_default_loop_n32() unwind 70 { chain_default_loop::<Rec32>(0, 2) }}
